@@ -2014,3 +2014,78 @@ Lemma shape_build :
                = mkA h (h + char_size c - 1) UUID_CHARACTERISTIC
                      (BCharDecl (c_props c) (h + k_chardecl_value_handle) (c_uuid c))).
 Proof. repeat split. Qed.
+
+(* ================================================================== fan-out independence *)
+Lemma routing_dyn_aux indicate mtu_of s h rv : forall l,
+  (forall b c, In (b, c) l -> assoc b s = Some c) ->
+  flat_map (fun bc => send_single_dyn indicate mtu_of s rv (fst bc) h)
+           (filter (fun bc => has_entry (snd bc) h) l)
+  = flat_map (fun b => match rv b with
+                       | Some v => [(b, kind_op indicate, h, truncate (mtu_of b) v)]
+                       | None => []
+                       end)
+             (filter (fun b => subscribed (kind_bit indicate) s b h) (map fst l)).
+Proof.
+  induction l as [|[b c] l IH]; intros Hl; [reflexivity|].
+  cbn [filter map fst snd].
+  assert (Ha : assoc b s = Some c) by (apply Hl; now left).
+  specialize (IH (fun b' c' H => Hl b' c' (or_intror H))).
+  destruct (subscribed (kind_bit indicate) s b h) eqn:S.
+  - rewrite (subscribed_has_entry _ _ _ _ _ Ha S). cbn [flat_map fst].
+    unfold send_single_dyn at 1. fold (kind_bit indicate). rewrite S. fold (kind_op indicate).
+    now rewrite IH.
+  - destruct (has_entry c h); [|exact IH].
+    cbn [flat_map fst]. unfold send_single_dyn at 1. fold (kind_bit indicate). rewrite S.
+    cbn [app]. exact IH.
+Qed.
+
+(* For every order of the subscriber table and every set of bearers on which the value cannot
+   be read: the bearers that get the PDU are exactly the subscribed ones minus those, one PDU
+   each, in table order.  What happens on one bearer (its read failing; in the code also its
+   confirmation never arriving: there is no shared state between the per-bearer tasks in this
+   function) does not change what any other bearer gets. *)
+Theorem fan_out_independent : forall indicate mtu_of s h rv,
+  NoDup (map fst s) ->
+  notify_or_indicate_subscribers_dyn indicate mtu_of s h rv
+  = flat_map (fun b => match rv b with
+                       | Some v => [(b, kind_op indicate, h, truncate (mtu_of b) v)]
+                       | None => []
+                       end)
+             (filter (fun b => subscribed (kind_bit indicate) s b h) (map fst s)).
+Proof.
+  intros indicate mtu_of s h rv Hn. unfold notify_or_indicate_subscribers_dyn.
+  apply routing_dyn_aux. intros b c Hin. now apply assoc_in_nodup.
+Qed.
+
+(* a healthy subscribed bearer gets its PDU whatever the other bearers' reads do *)
+Corollary healthy_bearer_served : forall indicate mtu_of s h rv b v,
+  NoDup (map fst s) -> In b (map fst s) -> subscribed (kind_bit indicate) s b h = true -> rv b = Some v ->
+  In (b, kind_op indicate, h, truncate (mtu_of b) v) (notify_or_indicate_subscribers_dyn indicate mtu_of s h rv).
+Proof.
+  intros indicate mtu_of s h rv b v Hn Hb Hs Hv. rewrite fan_out_independent by exact Hn.
+  apply in_flat_map. exists b. split; [apply filter_In; tauto|]. rewrite Hv. now left.
+Qed.
+
+(* with the same value everywhere this is the routing theorem *)
+Lemma fan_out_all_readable : forall indicate mtu_of s h v,
+  notify_or_indicate_subscribers_dyn indicate mtu_of s h (fun _ => Some v)
+  = notify_or_indicate_subscribers indicate mtu_of s h v false.
+Proof.
+  intros. unfold notify_or_indicate_subscribers_dyn, notify_or_indicate_subscribers.
+  rewrite (filter_ext (fun bc => orb false (has_entry (snd bc) h)) (fun bc => has_entry (snd bc) h)) by reflexivity.
+  apply flat_map_ext. intros [b c]. unfold send_single_dyn, send_single. cbn [orb fst].
+  destruct indicate; destruct (subscribed _ s b h); reflexivity.
+Qed.
+
+(* a sequential fan-out that stops at the first failure is NOT independent: a healthy bearer
+   that subscribed after a faulty one gets nothing *)
+Lemma fan_out_sequential_refuted :
+  exists s rv, NoDup (map fst s) /\
+    fan_out_sequential false (fun _ => 23) s 5 rv (map fst s)
+    <> notify_or_indicate_subscribers_dyn false (fun _ => 23) s 5 rv.
+Proof.
+  exists [(1, [(5, [1; 0])]); (2, [(5, [1; 0])])], (fun b => if b =? 1 then None else Some [7]).
+  split.
+  - repeat constructor; cbn; intuition discriminate.
+  - vm_compute. discriminate.
+Qed.
